@@ -5,10 +5,10 @@ package main
 // evidence as a trusted specification.
 
 import (
-	"os"
 	"fmt"
 	"go/token"
 	"go/types"
+	"os"
 	"strings"
 
 	"golang.org/x/tools/go/ssa"
